@@ -776,3 +776,36 @@ PROPS["C18"] = dict(
     assumptions=["only configurations that build on this machine are compared: default, nightly, nightly+simd_backend (x86_64 Linux)"],
     trusted_base=TB_COMMON + ["the folding of outputs longer than 64 bytes uses a 128-bit FNV implemented in the probe, not a dryoc primitive"],
 )
+
+# ---------------------------------------------------------------------------------------------- C20
+
+import c20  # noqa: E402
+
+
+def _c20_floors(m, tier):
+    out = []
+    nm = len(m.cov.get("cell_misuse", {}))
+    nc = len(m.cov.get("cell_control", {}))
+    if nm < 60 or nc < 60:
+        out.append("table too small: %d misuse cells, %d control cells" % (nm, nc))
+    if not m.cov.get("rejection_error_code"):
+        out.append("no misuse program was rejected by the compiler (nothing observed)")
+    if m.cov.get("control_outcome", {}).get("compiles+runs", 0) < 60:
+        out.append("fewer than 60 control programs compiled and ran")
+    return out
+
+
+PROPS["C20"] = dict(
+    level="exploration",
+    technique="runtime monitoring of the compiler as an observed process: misuse/control programs generated from the type-state table are compiled by the real rustc against the rlib of the crate just built; verdict and error class are recorded per cell; every program that compiles is linked and executed under a signal monitor",
+    level_text="One misuse and/or one control program per cell of {ReadWrite, ReadOnly, NoAccess} x {Locked, Unlocked} x {read view, mutable view, array view, mutable array view, index, index-assign, resize, clone, "
+               "lock, unlock, read-only, read-write, no-access, use-after-transition} for HeapBytes and HeapByteArray<32>, plus {Push, Pull} x {push, pull}: about 230 programs. The five classes the property names "
+               "must be rejected by the compiler with an error located on the misuse statement; other cells the model marks forbidden are violated only if the program compiles and faults at run time; every "
+               "control (a program differing from the misuse in exactly one statement) must compile, run and exit 0. The claim covers the generated table, not all programs.",
+    level_note="This is the one check where the observed execution is the compiler's: a property of the type system cannot be refuted by running the crate. Error codes are recorded, not prescribed, so a reworded diagnostic cannot alarm.",
+    runs=lambda tier: [dict(kind="custom", fn=c20.run)],
+    floors=_c20_floors,
+    rule="a case is one generated program (cell, kind); distinct by (cell, kind); all non-trivial (each reaches the state through the public API before the statement under test)",
+    assumptions=["Locked+NoAccess is a compile-only state on Linux (mlock of PROT_NONE memory fails at run time), its controls are type-checked but not executed"],
+    trusted_base=TB_COMMON + ["rustc nightly as installed (the verdict of the type checker is the observation)"],
+)
